@@ -2448,7 +2448,7 @@ class C19(Spec):
     pid = "C19"
     coq_files = ["Properties/C19.v"]
     theorems = ["C19_confined", "C19_interrupted_unpack_has_no_marker", "C19_failed_unpack_has_no_marker",
-                "C19_retry_is_a_clean_unpack", "C19_completed_unpack_has_marker"]
+                "C19_retry_is_a_clean_unpack", "C19_completed_unpack_has_marker", "C19_accepted_tree_is_the_archive"]
     level_text = ("Theorems about a file-system model of unpack_package / fetch_is_ok / the retry in fetch_package, for every archive "
                   "(absolute paths, `..`, other crates' directories, a carried completion marker) and every cut point k: nothing outside "
                   "the crate's own directory changes; an interrupted or failed unpack never leaves a valid marker; the next fetch "
